@@ -136,6 +136,15 @@ func (vc *VC) call(fr *Frame, instr ssa.Instruction, c *ssa.CallCommon, st *Stat
 		if len(args) > 0 {
 			env.vars["recv"] = args[0]
 		}
+		if !c.IsInvoke() && c.StaticCallee() == nil {
+			if _, isB := c.Value.(*ssa.Builtin); !isB {
+				// call through a function value: the value itself
+				fv := vc.operand(fr, c.Value)
+				if fv.T != "" {
+					env.vars["callee"] = Val{T: fv.T, Typ: types.Typ[types.Int]}
+				}
+			}
+		}
 		return env
 	}
 	for _, cs := range sites {
@@ -276,6 +285,9 @@ func (vc *VC) callInner(fr *Frame, instr ssa.Instruction, c *ssa.CallCommon, st 
 					names = append(names, n)
 				}
 				name := fnVal.FnField[strings.Index(fnVal.FnField, "::")+2:]
+				fv := fnVal
+				fv.Typ = types.Typ[types.Int]
+				vc.dynCallee = &fv
 				return vc.applyContract(fr, instr, spec, name, names, args, resType, sig, st, nil)
 			}
 		}
@@ -532,6 +544,14 @@ func (vc *VC) calleeName(fr *Frame, c *ssa.CallCommon) string {
 			return k[strings.Index(k, "::")+2:]
 		}
 	}
+	if _, isB := c.Value.(*ssa.Builtin); !isB {
+		if _, isSig := c.Value.Type().Underlying().(*types.Signature); isSig {
+			if _, isClo := c.Value.(*ssa.MakeClosure); !isClo {
+				// any other call through a function value (slice element, map entry, local variable, parameter)
+				return "$dyn"
+			}
+		}
+	}
 	return ""
 }
 
@@ -550,6 +570,11 @@ func (vc *VC) applyContract(fr *Frame, instr ssa.Instruction, spec *FuncSpec, na
 	}
 	for i := range args {
 		cenvVars[fmt.Sprintf("arg%d", i)] = args[i]
+	}
+	if vc.dynCallee != nil {
+		// call through a function-valued field: the function value itself
+		cenvVars["callee"] = *vc.dynCallee
+		vc.dynCallee = nil
 	}
 	pkg := vc.eng.pkgByPath(spec.Pkg)
 	mkEnv := func(cur, old *State, extra map[string]Val) *SpecEnv {
@@ -700,6 +725,7 @@ type Loc struct {
 	Comp   string
 	Ref    string // "" = whole component
 	Key    string // for ghost maps: key restriction
+	Prior  bool   // whole component restricted to the objects allocated before the loop (loop frames only)
 	Lo, Hi string // element range inside the row Ref (absolute indices); "" = whole row
 }
 
@@ -778,6 +804,15 @@ func (vc *VC) locsOf(env *SpecEnv, e Expr) []Loc {
 						}
 					}
 				}
+			case "prior":
+				// prior(allfields(T.f)) / prior(allelems(T)): the component at every object that existed before the loop
+				ls := vc.locsOf(env, x.Args[0])
+				for i := range ls {
+					if ls[i].Ref == "" {
+						ls[i].Prior = true
+					}
+				}
+				return ls
 			case "allelems":
 				t := vc.resolveType(env, exprName(x.Args[0]))
 				if t != nil {
@@ -1459,6 +1494,14 @@ func (vc *VC) loopHead(fr *Frame, li *loopInfo, st *State, phis []*ssa.Phi, entr
 		for _, pe := range ls.Preserves {
 			env := vc.specEnvCur(fr, st, fr.oldStOrSelf(st), locals)
 			for _, l := range vc.locsOf(env, pe) {
+				if l.Prior && strings.HasPrefix(vc.compSort[l.Comp], "(Array Int ") {
+					entry := vc.get(st, l.Comp)
+					hv := vc.freshConst("pres", vc.compSort[l.Comp])
+					vc.emit(fmt.Sprintf("(assert (forall ((r Int)) (! (=> (<= r %s) (= (select %s r) (select %s r))) :pattern ((select %s r)))))", entryNext, hv, entry, hv))
+					head.heap[l.Comp] = hv
+					li.preserved = append(li.preserved, [3]string{l.Comp, "$prior:" + entryNext, entry})
+					continue
+				}
 				if l.Ref == "" {
 					head.heap[l.Comp] = vc.get(st, l.Comp)
 				} else {
@@ -1601,7 +1644,9 @@ func (vc *VC) loopBackEdge(fr *Frame, li *loopInfo, from *ssa.BasicBlock, ex *bl
 		fst.pc = ex.conds[si]
 		for i, p := range li.preserved {
 			var goal string
-			if p[1] == "" {
+			if strings.HasPrefix(p[1], "$prior:") {
+				goal = fmt.Sprintf("(forall ((r Int)) (=> (<= r %s) (= (select %s r) (select %s r))))", strings.TrimPrefix(p[1], "$prior:"), vc.get(fst, p[0]), p[2])
+			} else if p[1] == "" {
 				goal = fmt.Sprintf("(= %s %s)", vc.get(fst, p[0]), p[2])
 			} else {
 				goal = fmt.Sprintf("(= (select %s %s) (select %s %s))", vc.get(fst, p[0]), p[1], p[2], p[1])
